@@ -45,6 +45,7 @@ def O(t):
 
 Q, Z, N, B, G, U, LIT, ID, FSTR, KSET, SEG, BUF, STR, SHP, TAG, OBJ, FNAME, ARR = "Q", "Z", "N", "B", "G", "U", "LIT", "Id", "F", "K", "Seg", "Buf", "Str", "Shp", "Tag", "Obj", "Fname", "Arr"
 COO = "Coo"
+FN = "Fn"
 
 
 def coq_type(t) -> str:
@@ -101,7 +102,7 @@ def coq_type(t) -> str:
 def parse_type(s: str):
     """'Q', 'O(Q)', 'L(L(Q))', 'T(Q,Q)' -> type"""
     s = s.strip()
-    for atom in (Q, Z, N, B, G, U, ID, FSTR, KSET, SEG, BUF, SHP, TAG, OBJ, FNAME, ARR, COO):
+    for atom in (Q, Z, N, B, G, U, ID, FSTR, KSET, SEG, BUF, SHP, TAG, OBJ, FNAME, ARR, COO, FN):
         if s == atom:
             return atom
     if s.startswith("R{") and s.endswith("}"):  # record: R{tag:Tag;score:Q}
@@ -1619,6 +1620,117 @@ def simmat_handler(fn, e, env, hoist, pure):
     return None
 
 
+def rewrite_defaultdict_of_sequences(node: ast.FunctionDef, tree) -> ast.FunctionDef:
+    """D = defaultdict(data.Sequence); …; x = D[k]; x.sound_events.append(v); …; list(D.values())
+    A defaultdict that is only ever used through `D[k].sound_events.append(v)` and read through `list(D.values())` is
+    represented by the log of its (k, v) insertions; `values()` is computed from the log (dd_values: one list per
+    key, keys in order of first insertion, values in order of insertion).  Anything else done to D, to x or to the
+    default of Sequence.sound_events makes the unit unreadable."""
+    # data.Sequence().sound_events must start as an empty list
+    seq_tree = tree("data/sequences.py")
+    ok = False
+    for n in seq_tree.body:
+        if isinstance(n, ast.ClassDef) and n.name == "Sequence":
+            for m in n.body:
+                if isinstance(m, ast.AnnAssign) and isinstance(m.target, ast.Name) and m.target.id == "sound_events" and m.value is not None:
+                    ok = ast.unparse(m.value).replace(" ", "") in ("Field(default_factory=list)", "[]")
+    if not ok:
+        raise Unsupported("Sequence.sound_events does not default to an empty list")
+    dd = None
+    for st in node.body:
+        if (isinstance(st, ast.Assign) and len(st.targets) == 1 and isinstance(st.targets[0], ast.Name) and isinstance(st.value, ast.Call)
+                and ast.unparse(st.value) in ("defaultdict(data.Sequence)", "collections.defaultdict(data.Sequence)", "defaultdict(Sequence)")):
+            if dd is not None:
+                raise Unsupported("two defaultdicts")
+            dd = st.targets[0].id
+            st.value = ast.List(elts=[], ctx=ast.Load())
+    if dd is None:
+        raise Unsupported("no defaultdict(data.Sequence)")
+
+    def rewrite_block(stmts):
+        out, i = [], 0
+        while i < len(stmts):
+            st = stmts[i]
+            nxt = stmts[i + 1] if i + 1 < len(stmts) else None
+            if (isinstance(st, ast.Assign) and len(st.targets) == 1 and isinstance(st.targets[0], ast.Name) and isinstance(st.value, ast.Subscript)
+                    and isinstance(st.value.value, ast.Name) and st.value.value.id == dd):
+                x = st.targets[0].id
+                if not (isinstance(nxt, ast.Expr) and isinstance(nxt.value, ast.Call) and isinstance(nxt.value.func, ast.Attribute) and nxt.value.func.attr == "append"
+                        and isinstance(nxt.value.func.value, ast.Attribute) and nxt.value.func.value.attr == "sound_events"
+                        and isinstance(nxt.value.func.value.value, ast.Name) and nxt.value.func.value.value.id == x
+                        and len(nxt.value.args) == 1 and not nxt.value.keywords):
+                    raise Unsupported("entry of the defaultdict used otherwise than by .sound_events.append(v)")
+                if any(isinstance(z, ast.Name) and z.id == x for later in stmts[i + 2:] for z in ast.walk(later)):
+                    raise Unsupported("entry of the defaultdict used again")
+                if any(isinstance(z, ast.Name) and z.id in (x, dd) for z in ast.walk(nxt.value.args[0])) or any(isinstance(z, ast.Name) and z.id in (x, dd) for z in ast.walk(st.value.slice)):
+                    raise Unsupported("defaultdict entry in its own key or value")
+                out.append(ast.Expr(value=ast.Call(func=ast.Attribute(value=ast.Name(id=dd, ctx=ast.Load()), attr="append", ctx=ast.Load()),
+                                                   args=[ast.Tuple(elts=[st.value.slice, nxt.value.args[0]], ctx=ast.Load())], keywords=[])))
+                i += 2
+                continue
+            if isinstance(st, ast.For):
+                st.body = rewrite_block(st.body)
+                if st.orelse:
+                    raise Unsupported("for/else")
+            elif isinstance(st, ast.If):
+                st.body = rewrite_block(st.body)
+                st.orelse = rewrite_block(st.orelse)
+            elif isinstance(st, (ast.While, ast.With, ast.Try, ast.FunctionDef)):
+                raise Unsupported(f"{type(st).__name__} in a function with a defaultdict")
+            out.append(st)
+            i += 1
+        return out
+
+    node.body = rewrite_block(node.body)
+
+    class _V(ast.NodeTransformer):
+        def visit_Call(self, c):
+            self.generic_visit(c)
+            if (isinstance(c.func, ast.Name) and c.func.id == "list" and len(c.args) == 1 and not c.keywords and isinstance(c.args[0], ast.Call)
+                    and isinstance(c.args[0].func, ast.Attribute) and c.args[0].func.attr == "values" and isinstance(c.args[0].func.value, ast.Name)
+                    and c.args[0].func.value.id == dd and not c.args[0].args and not c.args[0].keywords):
+                return ast.Call(func=ast.Name(id="dd_values_", ctx=ast.Load()), args=[ast.Name(id=dd, ctx=ast.Load())], keywords=[])
+            return c
+
+    node = _V().visit(node)
+    # every remaining use of D: its initialisation, D.append((k, v)) statements, dd_values_(D)
+    allowed = 0
+    for z in ast.walk(node):
+        if isinstance(z, ast.Assign) and len(z.targets) == 1 and isinstance(z.targets[0], ast.Name) and z.targets[0].id == dd:
+            allowed += 1
+        if isinstance(z, ast.Expr) and isinstance(z.value, ast.Call) and isinstance(z.value.func, ast.Attribute) and z.value.func.attr == "append" and isinstance(z.value.func.value, ast.Name) and z.value.func.value.id == dd:
+            allowed += 1
+        if isinstance(z, ast.Call) and isinstance(z.func, ast.Name) and z.func.id == "dd_values_":
+            allowed += 1
+    uses = sum(1 for z in ast.walk(node) if isinstance(z, ast.Name) and z.id == dd)
+    if uses != allowed:
+        raise Unsupported("the defaultdict is used in a way the translator does not read")
+    return ast.fix_missing_locations(node)
+
+
+def group_handler(fn, e, env, hoist, pure):
+    """zip(a, b) -> pairs up to the shorter list; dd_values_(log) (see rewrite_defaultdict_of_sequences);
+    connected_components(m) -> the library function, a parameter of the definition: (number of components, labels);
+    a name of function type passed on to a helper"""
+    if isinstance(e, ast.Name) and e.id in fn.iface.get("fn_names", ()):
+        return e.id, "Fn"
+    if isinstance(e, ast.Call) and isinstance(e.func, ast.Name):
+        if e.func.id == "zip" and len(e.args) == 2 and not e.keywords:
+            a, ta = fn.expr(e.args[0], env, hoist, pure)
+            b, tb = fn.expr(e.args[1], env, hoist, pure)
+            if not (isinstance(ta, tuple) and ta[0] == "L" and isinstance(tb, tuple) and tb[0] == "L"):
+                raise Unsupported("zip of non-lists")
+            return f"(combine {a} {b})", L(T(ta[1], tb[1]))
+        if e.func.id == "dd_values_" and len(e.args) == 1:
+            a, ta = fn.expr(e.args[0], env, hoist, pure)
+            if ta == ("L", None):
+                ta = L(T(N, Z))
+            if ta != L(T(N, Z)):
+                raise Unsupported(f"defaultdict log of type {ta}")
+            return f"(dd_values {a})", L(L(Z))
+    return None
+
+
 def mat_handler(fn, e, env, hoist, pure):
     """cost_matrix[i, j] on the affinity matrix (a numpy array indexed by a pair of ints)"""
     if isinstance(e, ast.Subscript) and isinstance(e.value, ast.Name) and e.value.id in env and env[e.value.id][1] == ("M",) and isinstance(e.slice, ast.Tuple) and len(e.slice.elts) == 2:
@@ -1758,7 +1870,12 @@ def generate(src_root: Path) -> tuple[str, dict]:
             ctx = Ctx(src_root, rel, tree(rel), qual.split(".")[0] if "." in qual else None, name, iface.get("consts", {}), tree)
             ctx.calls, ctx.strings = iface.get("calls", {}), iface.get("strings", {})
             ctx.custom = iface.get("custom", [])
-            fn = Fn(find_function(tree(rel), qual), iface, name, ctx)
+            node_ = find_function(tree(rel), qual)
+            if iface.get("rewrite"):
+                import copy as _copy
+
+                node_ = iface["rewrite"](_copy.deepcopy(node_), tree)
+            fn = Fn(node_, iface, name, ctx)
             txt = fn.translate()
             report["units"][name] = "translated"
             emit(name, "\n".join(ctx.emitted + [txt]), f"(* from soundevent/{rel} :: {qual} *)")
@@ -1938,6 +2055,16 @@ def generate(src_root: Path) -> tuple[str, dict]:
     unit("compute_similarity_matrix", "geometry/operations.py", "_compute_similarity_matrix",
          {"params": {"sound_events": "L(Z)"}, "drop_params": ["comparison_fn"], "fparams": {"comparison_fn": "Z -> Z -> bool"},
           "calls": {"comparison_fn": {"coq": "comparison_fn", "args": ["Z", "Z"], "ret": "B"}}, "custom": [simmat_handler], "ret": "Coo"})
+
+    out.append("(* glue: the helper called with its arguments in the order of the Python signature *)")
+    out.append("Definition compute_similarity_matrix_py (sound_events : list Z) (comparison_fn : Z -> Z -> bool) : res coo :=\n  compute_similarity_matrix comparison_fn sound_events.")
+    out.append("")
+    unit("group_sound_events", "geometry/operations.py", "group_sound_events",
+         {"params": {"sound_events": "L(Z)"}, "drop_params": ["comparison_fn"],
+          "fparams": {"comparison_fn": "Z -> Z -> bool", "connected_components": "coo -> nat * list nat"}, "fn_names": ["comparison_fn"],
+          "calls": {"_compute_similarity_matrix": {"coq": "compute_similarity_matrix_py", "args": ["L(Z)", "Fn"], "argnames": ["sound_events", "comparison_fn"], "ret": "Coo", "monadic": True},
+                    "connected_components": {"coq": "connected_components", "args": ["Coo"], "ret": "T(N,L(N))"}},
+          "custom": [group_handler], "rewrite": rewrite_defaultdict_of_sequences, "ret": "L(L(Z))"})
 
     # ---- C05 (and the bounds every geometry property goes through): geometry_to_shapely and compute_bounds
     rel = "geometry/conversion.py"
